@@ -77,6 +77,10 @@ func main() {
 			cr.RunCuts(*out)
 		case "replay":
 			cr.RunReplay(*in, *out)
+		case "itrace":
+			cr.RunITrace(*out)
+		case "sched":
+			cr.RunSched(*in, *out)
 		default:
 			cr.Run(*out, *mode)
 		}
